@@ -266,5 +266,55 @@ pub proof fn lemma_x_final(a: S, pre: S, post: S, l: Seq<GcPtr>, cur: int)
     }
 }
 
+
+// ---- C07 across calls: the same statement relative to the CURRENT graph.  While marking, the graph is the one marking began on
+// (exact_w), so "exact relative to the state marking began in" can be restated over the current state alone: a state predicate that
+// every collection call preserves and every wake-up establishes.  Mutator steps during Mark are not claimed to preserve it (that is the
+// property's hypothesis "no mutation since marking of this cycle began"); outside Mark it holds vacuously.
+pub open spec fn exact_self(s: S) -> bool { s.phase == Phase::Mark ==> exact_x(s, s) }
+/// is_dead (unmarked or weakly marked) is true exactly for the objects unreachable from the root
+pub open spec fn dead_exact(s: S) -> bool {
+    forall|p: GcPtr| #[trigger] isobj(s, p) ==> (is_white(s.objs[p].color) <==> !reach(s, p))
+}
+pub proof fn lemma_reach_graph_iff(a: S, b: S, p: GcPtr)
+    requires b.edges =~= a.edges, b.root_edges =~= a.root_edges, b.stack =~= a.stack
+    ensures reach(a, p) <==> reach(b, p)
+{
+    if reach(a, p) { let n = choose|n: nat| reach_n(a, p, n); lemma_reach_same_graph(a, b, p, n); }
+    if reach(b, p) { let n = choose|n: nat| reach_n(b, p, n); lemma_reach_same_graph(b, a, p, n); }
+}
+pub proof fn lemma_kept_graph(a: S, b: S, p: GcPtr)
+    requires b.edges =~= a.edges, b.root_edges =~= a.root_edges, b.stack =~= a.stack, kept_ok(a, p)
+    ensures kept_ok(b, p)
+{
+    lemma_reach_graph_iff(a, b, p);
+    if !reach(a, p) {
+        if exists|k: int| 0 <= k < a.root_edges.len() && (#[trigger] a.root_edges[k]).to == p {
+            let k = choose|k: int| 0 <= k < a.root_edges.len() && (#[trigger] a.root_edges[k]).to == p;
+            assert(b.root_edges[k].to == p);
+        } else {
+            let (q, k) = choose|q: GcPtr, k: int| #![trigger a.edges[q][k]] reach(a, q) && 0 <= k < a.edges[q].len() && a.edges[q][k].to == p;
+            lemma_reach_graph_iff(a, b, q);
+            assert(b.edges[q][k].to == p);
+        }
+    }
+}
+/// re-anchoring: while marking, exactness relative to `a` is exactness relative to the current state (and back)
+pub proof fn lemma_x_rebase(a: S, b: S, c: S, l: Seq<GcPtr>, cur: int)
+    requires exact_w(a, b, l, cur), b.phase == Phase::Mark,
+        c.edges =~= a.edges, c.root_edges =~= a.root_edges, c.stack =~= a.stack,
+    ensures exact_w(c, b, l, cur)
+{
+    assert forall|p: GcPtr| reach(c, p) implies #[trigger] isobj(b, p) by { lemma_reach_graph_iff(a, c, p); }
+    assert forall|p: GcPtr| #[trigger] isobj(b, p) && b.objs[p].color != GcColor::White implies kept_ok(c, p) by { lemma_kept_graph(a, c, p); }
+    assert forall|p: GcPtr| #[trigger] isobj(b, p) && is_marked(b.objs[p].color) implies reach(c, p) by { lemma_reach_graph_iff(a, c, p); }
+}
+pub proof fn lemma_xs_marked(b: S, l: Seq<GcPtr>, cur: int)
+    requires inv_w(b, l, cur), exact_w(b, b, l, cur), b.phase == Phase::Mark, !gray_remaining_spec(b), b.stack =~= Set::empty()
+    ensures dead_exact(b)
+{
+    lemma_x_marked(b, b, l, cur);
+}
+
 } // mod lem_exact
 } // verus!
